@@ -164,9 +164,25 @@ def _run(ix, R):
                 lp = fl.tab.name(lin)
                 cv = spec(fl, conv)
                 want = spec(fl, '_guard(L is not None, C, P)', {'L': lp, 'C': cv, 'P': p})
-                if got is None or not fl.tab.equal(got, want):
-                    why.append('%s <- %s (expected %s when %s is given, else %s)' % (
-                        kw, fmt(fl, got), conv, lin, kw))
+                if got is not None and fl.tab.equal(got, want):
+                    continue
+                # the same decision spelled otherwise: one guard on `<lin> is None`, the items of the converted sequence
+                # (a list and a tuple of the same items are the same bounds: set_bounds takes min / max of them)
+                ga = atom_of(fl, got) if got is not None else None
+                if ga is not None and ga.head == 'guard':
+                    a_, b_ = None, None
+                    if fl.tab.equal(ga.args[0], spec(fl, 'L is None', {'L': lp})):
+                        a_, b_ = ga.args[2], ga.args[1]
+                    elif fl.tab.equal(ga.args[0], spec(fl, 'L is not None', {'L': lp})):
+                        a_, b_ = ga.args[1], ga.args[2]
+                    if a_ is None:
+                        raise AnalysisError('%s <- %s: not decided by `%s is None`' % (kw, fmt(fl, got), lin))
+                    if fl.tab.equal(fl.conv._iterand(a_), fl.conv._iterand(cv)) and fl.tab.equal(b_, p):
+                        continue
+                elif got is not None and got.mentions(lambda at: at.head == 'name' and at.args[0] == lin):
+                    raise AnalysisError('%s <- %s: shape not recognised' % (kw, fmt(fl, got)))
+                why.append('%s <- %s (expected %s when %s is given, else %s)' % (
+                    kw, fmt(fl, got), conv, lin, kw))
             R.check('2.%s.args' % cls, 'ALG', site,
                     '%s: linear-space arguments reach the base constructor only through log10' % cls,
                     not why, key='; '.join(why), detail='; '.join(why), loc=f.loc(sup.node))
